@@ -641,6 +641,7 @@ func (w *plugWorld) runOp(c map[string]interface{}) map[string]interface{} {
 				break
 			}
 			o["stale_uid"] = string(g.UID)
+			o["obj"] = []interface{}{g.Namespace, g.Name, string(g.UID), int(phaseIdx(g.Status.Phase)), g.Spec.NodeName, podIPs(g)}
 			_ = w.plugin.VerifSyncPodIP(g.DeepCopy())
 			break
 		}
@@ -649,7 +650,9 @@ func (w *plugWorld) runOp(c map[string]interface{}) map[string]interface{} {
 			o["res"] = "skipped"
 			break
 		}
-		_ = w.plugin.VerifSyncPodIP(obj.(*corev1.Pod))
+		cur := obj.(*corev1.Pod)
+		o["obj"] = []interface{}{cur.Namespace, cur.Name, string(cur.UID), int(phaseIdx(cur.Status.Phase)), cur.Spec.NodeName, podIPs(cur)}
+		_ = w.plugin.VerifSyncPodIP(cur)
 	case "reload":
 		w.confText = Str(c, "conf")
 		cm, _ := w.kube.CoreV1().ConfigMaps("kube-system").Get(context.TODO(), "floatingip-config", metav1.GetOptions{})
